@@ -110,7 +110,7 @@ inline int SimSock::sendBytes(const void *b, int len, int)
 
 // ------------------------------------------------------------------------------------------------
 // independent FIX tag=value codec (no fix8 code): build with BodyLength/CheckSum computed here, parse by scanning
-typedef std::vector<std::pair<int, std::string>> Fields;
+typedef std::vector<std::pair<int, std::string>> Flds;
 
 inline std::string utc_ts(int64_t ns)
 {
@@ -119,7 +119,7 @@ inline std::string utc_ts(int64_t ns)
 	return buf;
 }
 
-inline std::string wire(const std::string& begin, const Fields& body /* starts with 35 */)
+inline std::string wire(const std::string& begin, const Flds& body /* starts with 35 */)
 {
 	std::string b;
 	for (auto& f : body) { b += std::to_string(f.first); b += '='; b += f.second; b += SOH; }
@@ -131,7 +131,7 @@ inline std::string wire(const std::string& begin, const Fields& body /* starts w
 
 struct Msg
 {
-	Fields f; std::string raw;
+	Flds f; std::string raw;
 	const std::string *find(int tag) const { for (auto& x : f) if (x.first == tag) return &x.second; return nullptr; }
 	std::string get(int tag, const std::string& def = "") const { auto *p = find(tag); return p ? *p : def; }
 	long num(int tag, long def = -1) const { auto *p = find(tag); return p ? atol(p->c_str()) : def; }
@@ -140,10 +140,10 @@ struct Msg
 	bool possdup() const { return get(43) == "Y"; }
 	bool gapfill() const { return type() == "4" && get(123) == "Y"; }
 	// body fields = everything except standard header/trailer tags
-	Fields body() const
+	Flds body() const
 	{
 		static const int hdr[] = { 8, 9, 35, 34, 49, 56, 52, 43, 97, 122, 10, 50, 57, 115, 116, 128, 129, 142, 143, 144, 145, 90, 91, 212, 213, 347, 369, 370 };
-		Fields o; for (auto& x : f) { bool h = false; for (int t : hdr) if (t == x.first) h = true; if (!h) o.push_back(x); } return o;
+		Flds o; for (auto& x : f) { bool h = false; for (int t : hdr) if (t == x.first) h = true; if (!h) o.push_back(x); } return o;
 	}
 	std::string brief() const { return "35=" + type() + " 34=" + get(34) + (possdup() ? " 43=Y" : "") + (has(123) ? " 123=" + get(123) : "") + (has(36) ? " 36=" + get(36) : "") + (has(7) ? " 7=" + get(7) + " 16=" + get(16) : "") + (has(11) ? " 11=" + get(11) : "") + (has(112) ? " 112=" + get(112) : "") + (has(58) ? " 58=" + get(58).substr(0, 60) : ""); }
 };
@@ -220,21 +220,21 @@ struct Peer
 {
 	SimSock *sock = nullptr; std::string begin = "FIX.4.2", me = "CLI", them = "SRV";
 	unsigned out_seq = 1; size_t parsed = 0; std::vector<Msg> seen; std::string last_error;
-	Fields hdr(const std::string& type, unsigned seq, int64_t t, const Fields& extra_hdr = {}) const
+	Flds hdr(const std::string& type, unsigned seq, int64_t t, const Flds& extra_hdr = {}) const
 	{
-		Fields f = { {35, type}, {34, std::to_string(seq)}, {49, me}, {56, them}, {52, utc_ts(t)} };
+		Flds f = { {35, type}, {34, std::to_string(seq)}, {49, me}, {56, them}, {52, utc_ts(t)} };
 		for (auto& x : extra_hdr) f.push_back(x);
 		return f;
 	}
-	std::string make(const std::string& type, unsigned seq, const Fields& body, const Fields& extra_hdr = {}) const
+	std::string make(const std::string& type, unsigned seq, const Flds& body, const Flds& extra_hdr = {}) const
 	{
-		Fields f = hdr(type, seq, sim::now_ns(), extra_hdr); for (auto& x : body) f.push_back(x);
+		Flds f = hdr(type, seq, sim::now_ns(), extra_hdr); for (auto& x : body) f.push_back(x);
 		return wire(begin, f);
 	}
-	static Fields order_body(const std::string& id) { return { {11, id}, {21, "1"}, {55, "X"}, {54, "1"}, {60, utc_ts(sim::now_ns())}, {40, "1"}, {38, "10"} }; }
+	static Flds order_body(const std::string& id) { return { {11, id}, {21, "1"}, {55, "X"}, {54, "1"}, {60, utc_ts(sim::now_ns())}, {40, "1"}, {38, "10"} }; }
 	void send(const std::string& bytes) { sock->inject(bytes); }
-	void send_msg(const std::string& type, const Fields& body, const Fields& extra_hdr = {}) { send(make(type, out_seq++, body, extra_hdr)); }
-	void logon(int hb, const Fields& extra = {}) { Fields b = { {98, "0"}, {108, std::to_string(hb)} }; for (auto& x : extra) b.push_back(x); send_msg("A", b); }
+	void send_msg(const std::string& type, const Flds& body, const Flds& extra_hdr = {}) { send(make(type, out_seq++, body, extra_hdr)); }
+	void logon(int hb, const Flds& extra = {}) { Flds b = { {98, "0"}, {108, std::to_string(hb)} }; for (auto& x : extra) b.push_back(x); send_msg("A", b); }
 	// parse what the session wrote since the last call; false on framing errors
 	bool poll(std::vector<Msg>& fresh)
 	{
